@@ -813,6 +813,7 @@ pub fn generate<M: Machine>(property: &str, verif_seed: u64, run: u64, mode: Mod
         verif_seed,
         run_index: run,
         exact_data: false,
+        isolated: false,
         tapes,
         events: Vec::new(),
         knobs: json!({"fault_rate": fault_rate, "fault_kinds": kinds, "workers": n_workers, "mode": format!("{:?}", mode)}),
@@ -946,6 +947,7 @@ pub fn enumerate_nonpositive<M: Machine>(bg_seed: u64, max_len: usize) -> Vec<Tr
                             verif_seed: bg_seed,
                             run_index: k,
                             exact_data: false,
+                            isolated: false,
                             tapes,
                             events,
                             knobs: json!({"enumerated": {"len": len, "pos": pos, "payload": pname, "style": M::style_name(style), "pre": pre}}),
